@@ -52,7 +52,7 @@ PROFILES = {
     # extreme frequency weights (any float > 0 is a valid attribute value): scores overflow to
     # infinity; the limit must hold all the same
     "C04X": dict(need_limit=True, policies=["tlru"], streaks=True, extreme_weights=True),
-    "C05": dict(need_mem=True),
+    "C05": dict(need_mem=True, scenarios=True, streaks=True),
     "C06": dict(need_ttl=True, lifetime=True),
     "C07": dict(policies=["fifo", "lru"], need_pressure=True, streaks=True, scenarios=True),
     "C08": dict(policies=["lfu", "arc", "tlru"], need_pressure=True, extra_ttl=[6, 10, 6], streaks=True, scenarios=True),
